@@ -1,0 +1,89 @@
+// SPDX-FileCopyrightText: 2026 The Pion community <https://pion.ly>
+// SPDX-License-Identifier: MIT
+
+//go:build verif
+
+package ice
+
+import (
+	"net"
+	"net/netip"
+)
+
+// Exports for the external verification harness (/verif), suite udpmux (C12).
+// Built only with -tags verif. Read-only views of UDPMuxDefault / udpMuxedConn.
+
+// VerifUDPMuxConnState is a snapshot of one udpMuxedConn.
+type VerifUDPMuxConnState struct {
+	Key       string
+	Closed    bool
+	QueueLen  int
+	Addresses []netip.AddrPort
+}
+
+// VerifUDPMuxUnderlying returns an identity (comparable) of the udpMuxedConn behind a
+// connection returned by UDPMuxDefault.GetConn.
+func VerifUDPMuxUnderlying(pc net.PacketConn) (any, bool) {
+	switch conn := pc.(type) {
+	case *sharedAddrPortConn:
+		muxed, ok := conn.underlying.(*udpMuxedConn)
+
+		return muxed, ok
+	case *sharedPacketConn:
+		muxed, ok := conn.underlying.(*udpMuxedConn)
+
+		return muxed, ok
+	case *udpMuxedConn:
+		return conn, true
+	default:
+		return nil, false
+	}
+}
+
+// VerifUDPMuxConnSnapshot returns the state of a udpMuxedConn identity obtained from
+// VerifUDPMuxUnderlying.
+func VerifUDPMuxConnSnapshot(id any) VerifUDPMuxConnState {
+	conn, ok := id.(*udpMuxedConn)
+	if !ok {
+		return VerifUDPMuxConnState{}
+	}
+	conn.mu.Lock()
+	defer conn.mu.Unlock()
+	qlen := 0
+	for pkt := conn.bufTail; pkt != nil; pkt = pkt.next {
+		qlen++
+	}
+
+	return VerifUDPMuxConnState{
+		Key:       conn.params.Key,
+		Closed:    conn.closed,
+		QueueLen:  qlen,
+		Addresses: append([]netip.AddrPort{}, conn.addresses...),
+	}
+}
+
+// VerifUDPMuxSnapshot returns copies of the two ufrag maps and of the address map, with
+// connections given as the identities VerifUDPMuxUnderlying returns.
+func VerifUDPMuxSnapshot(m *UDPMuxDefault) (
+	closed bool, connsIPv4, connsIPv6 map[string]any, addressMap map[netip.AddrPort]any,
+) {
+	connsIPv4, connsIPv6 = map[string]any{}, map[string]any{}
+	addressMap = map[netip.AddrPort]any{}
+
+	m.mu.Lock()
+	for k, v := range m.connsIPv4 {
+		connsIPv4[k] = v
+	}
+	for k, v := range m.connsIPv6 {
+		connsIPv6[k] = v
+	}
+	m.mu.Unlock()
+
+	m.addressMapMu.Lock()
+	for k, v := range m.addressMap {
+		addressMap[k] = v
+	}
+	m.addressMapMu.Unlock()
+
+	return m.IsClosed(), connsIPv4, connsIPv6, addressMap
+}
